@@ -135,6 +135,7 @@ func (x *Xlat) merge(a, b *State) *State {
 			continue
 		}
 		out.env[k] = x.ctx.Define("m$"+k, Ite(cond, va, vb))
+		x.mergeElemsBridge(out, k, out.env[k], cond, va, vb)
 	}
 	for _, k := range sortedKeys(b.env) {
 		vb := b.env[k]
@@ -151,6 +152,7 @@ func (x *Xlat) merge(a, b *State) *State {
 				out.env[k] = va
 			} else {
 				out.env[k] = x.ctx.Define("m$"+k, Ite(cond, va, vb))
+				x.mergeElemsBridge(out, k, out.env[k], cond, va, vb)
 			}
 		}
 	}
@@ -289,4 +291,30 @@ type Obligation struct {
 	Result *SolveResult
 	Replay *ReplayInfo // how to run the real function (top-level functions only)
 	Clause *Clause     // the postcondition, for ensures obligations
+}
+
+// mergeElemsBridge: reads of a merged element heap through at() are the reads of the branch that was taken. Implied by
+// the definition of the merged heap (an ite); stated over at() so that E-matching carries element facts across the join.
+func (x *Xlat) mergeElemsBridge(out *State, key string, m, cond, va, vb *Term) {
+	if !strings.HasPrefix(key, "Elems$") {
+		return
+	}
+	_, inner, ok := splitArrSort(m.Sort)
+	if !ok {
+		return
+	}
+	_, es, ok := splitArrSort(inner)
+	if !ok {
+		return
+	}
+	switch es {
+	case SInt, SReal, SBool, SRef, SStr, SSlice:
+	default:
+		if x.ctx.dtByName[es] == nil {
+			return // the element type was never materialised in this context (region known from the effect analysis only)
+		}
+	}
+	tb, jb := Const("t!", SSlice), Const("j!", SInt)
+	lhs := x.atTerm(m, tb, jb, es)
+	out.facts = append(out.facts, Forall([]Bind{{"t!", SSlice}, {"j!", SInt}}, Eq(lhs, Ite(cond, x.atTerm(va, tb, jb, es), x.atTerm(vb, tb, jb, es))), []*Term{lhs}))
 }
